@@ -13,8 +13,11 @@ use std::time::Duration;
 
 use nexosim::model::{BuildContext, Context, InitializedModel, Model, ProtoModel};
 use nexosim::ports::{
-    EventBuffer, EventSinkStream, EventSlot, EventSource, Output, QuerySource, Requestor,
+    EventBuffer, EventSinkStream, EventSlot, EventSource, Output, QuerySource, Requestor, UniRequestor,
 };
+
+/// Requestor-port indices at or above this value designate `UniRequestor` ports.
+pub const UNI_BASE: usize = 1000;
 use nexosim::simulation::{
     ActionKey, Address, AutoActionKey, ExecutionError, Mailbox, Scheduler, SchedulingError,
     SimInit, Simulation,
@@ -387,6 +390,8 @@ pub enum Op {
     /// Query, but only the first `take` replies are pulled from the reply
     /// iterator before it is dropped.
     QueryTake { port: usize, tag: u16, val: Val, take: usize },
+    /// Query through a `UniRequestor` port (at most one reply).
+    UniQuery { port: usize, tag: u16, val: Val },
     /// Schedule an event on this model's own input.
     Sched { kind: SKind, when: When, tag: u16, val: Val, slot: usize },
     /// Cancel (consuming the key stored in the shared slot).
@@ -456,6 +461,8 @@ pub struct NodeSpec {
     pub outs: Vec<Vec<Conn>>,
     /// Requestor ports: connections to repliers (only `Conn::To`).
     pub reqs: Vec<Vec<Conn>>,
+    /// `UniRequestor` ports: exactly one connection each.
+    pub unis: Vec<Conn>,
     /// If set, output port i of this node is a *clone* of output port
     /// `share_out.1` of node `share_out.0` (clones share connections).
     pub share_out: Option<(usize, usize)>,
@@ -472,6 +479,7 @@ impl NodeSpec {
             scripts: BTreeMap::new(),
             outs: vec![],
             reqs: vec![],
+            unis: vec![],
             share_out: None,
         }
     }
@@ -489,6 +497,10 @@ impl NodeSpec {
     }
     pub fn req(mut self, conns: Vec<Conn>) -> Self {
         self.reqs.push(conns);
+        self
+    }
+    pub fn uni(mut self, conn: Conn) -> Self {
+        self.unis.push(conn);
         self
     }
     pub fn parent(mut self, p: usize) -> Self {
@@ -574,6 +586,7 @@ pub struct Node {
     spec: Arc<BenchSpec>,
     outs: Vec<Output<Msg>>,
     reqs: Vec<Requestor<Msg, Reply>>,
+    unis: Vec<UniRequestor<Msg, Reply>>,
     addrs: Arc<Vec<Address<Node>>>,
     _guard: ModelGuard,
 }
@@ -672,6 +685,18 @@ impl Node {
                         })
                         .collect();
                     w.log(Ev::QryE { node, port, id, replies, partial: false });
+                }
+                Op::UniQuery { port, tag, val } => {
+                    let id = w.fresh_id();
+                    let v = eval(val, in_val);
+                    w.log(Ev::QryS { node, port: UNI_BASE + port, id, val: v });
+                    let replies: Vec<(usize, i64)> = self.unis[port]
+                        .send(Msg::new(&w, id, tag, v))
+                        .await
+                        .map(|r| (r.from, if r.id == id { r.val } else { i64::MIN + r.id as i64 }))
+                        .into_iter()
+                        .collect();
+                    w.log(Ev::QryE { node, port: UNI_BASE + port, id, replies, partial: false });
                 }
                 Op::QueryTake { port, tag, val, take } => {
                     let id = w.fresh_id();
@@ -1160,12 +1185,52 @@ pub fn build(spec: &Arc<BenchSpec>, w: &Arc<W>) -> Built {
             connect_req(&mut r, conns, &addrs);
             reqs.push(r);
         }
+        let mut unis = vec![];
+        for c in &s.unis {
+            if let Conn::To { node, mode } = *c {
+                let a = &addrs[node];
+                unis.push(match mode {
+                    Mode::Plain => UniRequestor::new(Node::on_query, a),
+                    Mode::Map(_) => UniRequestor::with_map(
+                        move |m: &Msg| {
+                            let mut m = m.clone();
+                            m.val = mode.apply(m.val).unwrap();
+                            m
+                        },
+                        |mut r: Reply| {
+                            r.val += 1000;
+                            r
+                        },
+                        Node::on_query,
+                        a,
+                    ),
+                    Mode::Filter(_) => UniRequestor::with_filter_map(
+                        move |m: &Msg| {
+                            mode.apply(m.val).map(|v| {
+                                let mut m = m.clone();
+                                m.val = v;
+                                m
+                            })
+                        },
+                        |mut r: Reply| {
+                            r.val += 2000;
+                            r
+                        },
+                        Node::on_query,
+                        a,
+                    ),
+                });
+            } else {
+                panic!("uni requestors connect to nodes only");
+            }
+        }
         nodes.push(Some(Node {
             idx: i,
             w: w.clone(),
             spec: spec.clone(),
             outs: std::mem::take(&mut outs_all[i]),
             reqs,
+            unis,
             addrs: addrs.clone(),
             _guard: ModelGuard {
                 w: w.clone(),
